@@ -228,7 +228,7 @@ func TestC05(t *testing.T) {
 			cp.Res = genShape(c.R, sc.Sig, 1+c.R.IntN(6))
 			sc.Reqs = append(sc.Reqs, &cp)
 		}
-		sc.Shutdown = 0
+		sc.Shutdown = c.Idx % 2 // half of the stress runs shut down as soon as every call is enqueued
 		run, err := execStress(c, sc)
 		post(c, run, err, nil)
 	})
